@@ -250,7 +250,7 @@ func within(sub, backing []byte, n int) bool {
 var hugeLens = []uint64{1 << 31, 1<<31 - 1, 1 << 32, 1<<32 + 1, 1 << 33, 1<<62 - 1, 1 << 61, 1<<16 - 1, 1 << 16}
 
 func TestVarintBytes(t *testing.T) {
-	s := rt.S("varint-bytes").SetRule("ConsumeVarintBytes on buffers 'varint(declared) || payload' with declared in {remaining-1, remaining, remaining+1, 2^31.., 2^62-1, drawn} and guard bytes behind the slice; AppendVarintBytes round trip; non-trivial = declared != remaining; distinct by (declared, payload)")
+	s := rt.S("varint-bytes").SetRule("ConsumeVarintBytes on buffers 'varint(declared) || payload' with declared in {remaining-1, remaining, remaining+1, 2^31.., 2^62-1, drawn} and guard bytes behind the slice; AppendVarintBytes round trip, and the zero-length payload given as nil, as an empty slice and as an empty sub-slice; non-trivial = declared != remaining; distinct by (declared, payload)")
 	rt.Check(t, 20000, 600000, func(t *rapid.T) {
 		payload := gen.Bytes(t, 0, 70, "payload")
 		if gen.Uniform(t, 6, "longPayload") == 0 {
@@ -337,6 +337,15 @@ func TestVarintBytes(t *testing.T) {
 		if n != len(enc)-len(prefix) || !bytes.Equal(back, payload) {
 			t.Fatalf("SIG=C19/varbytes-roundtrip got (%x,%d)", back, n)
 		}
+		// the zero-length byte string has one encoding, whether it is handed over as nil, as an empty slice or as an empty
+		// sub-slice of something else: the prefix followed by a single 00
+		for zi, z := range [][]byte{nil, {}, payload[:0], make([]byte, 0, 8)} {
+			e := quicwire.AppendVarintBytes(append([]byte{}, prefix...), z)
+			if w := append(append([]byte{}, prefix...), 0); !bytes.Equal(e, w) {
+				t.Fatalf("SIG=C19/varbytes-append-empty AppendVarintBytes(%x, empty payload kind %d) = %x, want %x", prefix, zi, e, w)
+			}
+			s.Eval()
+		}
 		// ... and, for payloads of 64 bytes and more, right afterwards payloads whose lengths are congruent to this one modulo
 		// 2^8, 2^16 (anything remembered per length must remember the whole length)
 		if len(payload) >= 64 {
@@ -356,7 +365,7 @@ func TestVarintBytes(t *testing.T) {
 }
 
 func TestUint8Bytes(t *testing.T) {
-	s := rt.S("uint8-bytes").SetRule("ConsumeUint8Bytes for every declared length 0..255 against drawn remaining lengths (guard bytes behind); AppendUint8Bytes round trip for every length 0..255; non-trivial = declared != remaining; distinct by (declared, remaining, payload)")
+	s := rt.S("uint8-bytes").SetRule("ConsumeUint8Bytes for every declared length 0..255 against drawn remaining lengths (guard bytes behind); AppendUint8Bytes round trip for every length 0..255 and for the zero-length payload given as nil, empty slice, empty sub-slice; non-trivial = declared != remaining; distinct by (declared, remaining, payload)")
 	rt.Check(t, 8000, 200000, func(t *rapid.T) {
 		payload := gen.Bytes(t, 0, 300, "payload")
 		declared := rapid.IntRange(0, 255).Draw(t, "declared")
@@ -394,6 +403,13 @@ func TestUint8Bytes(t *testing.T) {
 			back, n := quicwire.ConsumeUint8Bytes(enc[len(prefix):])
 			if n != 1+len(payload) || !bytes.Equal(back, payload) {
 				t.Fatalf("SIG=C19/u8bytes-roundtrip")
+			}
+			for zi, z := range [][]byte{nil, {}, payload[:0], make([]byte, 0, 8)} {
+				e := quicwire.AppendUint8Bytes(append([]byte{}, prefix...), z)
+				if w := append(append([]byte{}, prefix...), 0); !bytes.Equal(e, w) {
+					t.Fatalf("SIG=C19/u8bytes-append-empty AppendUint8Bytes(%x, empty payload kind %d) = %x, want %x", prefix, zi, e, w)
+				}
+				s.Eval()
 			}
 		}
 		s.Sample(func() any { return map[string]any{"declared": declared, "remaining": len(payload)} })
